@@ -5,7 +5,7 @@ import lag
 import dtree
 import algebra
 import nullrules as N
-from facts import walk, peel, src, loc, callee_is, _pat_binds, strip_generics
+from facts import walk, children, peel, src, loc, callee_is, _pat_binds, strip_generics
 
 
 def fn_env(fn):
@@ -13,14 +13,40 @@ def fn_env(fn):
     return N.self_env(fn)
 
 
+def xhir(fn):
+    """the body with Option combinators written as the control flow they abbreviate"""
+    if not hasattr(fn, '_xhir'):
+        import pinned
+        fn._xhir = pinned.expand_options(fn.hir)
+    return fn._xhir
+
+
+def _pair_param(e):
+    """closure over one (lagged, current) pair: a tuple pattern or a pair bound whole"""
+    if len(e['params']) != 1:
+        return False
+    p = e['params'][0]
+    return p.get('k') == 'Tuple' or (p.get('k') == 'Binding' and dtree._tuple_arity(p.get('ty')) == 2)
+
+
 def closure_tables(fn):
     """(closure node, decision table, guards) of every closure of fn; parameters are a0, a1 ..,
     captured state is named as at the definition site (kept lets positional)"""
     env0 = fn_env(fn)
     out = []
-    for e in walk(fn.hir):
+    root = xhir(fn)
+
+    def tops(e):
+        # the element closures are the outermost ones (a closure inside a closure is part of its
+        # parent's table)
         if e.get('k') == 'Closure':
-            t = dtree.closure_table(fn.hir, e, env0)
+            yield e
+            return
+        for c in children(e):
+            yield from tops(c)
+    for e in tops(root):
+        if e.get('k') == 'Closure':
+            t = dtree.closure_table(root, e, env0)
             # `<=` folded to `<`: at the bound itself both choices give the same value
             t = dtree.Table((frozenset(c.replace('<=', '<') for c in cs), leaf, ef) for cs, leaf, ef in t)
             out.append((e, t))
@@ -87,7 +113,7 @@ def elem_fns(run, F):
     fn = F.one('MapValidVec::vdiff')
     n = 0
     for e, t in closure_tables(fn):
-        if len(e['params']) == 1 and e['params'][0].get('k') == 'Tuple':
+        if _pair_param(e):
             n += 1
             # (lagged a0, current a1) -> current - lagged
             ok = t == T(([], '(a1 - a0)', []))
@@ -97,7 +123,7 @@ def elem_fns(run, F):
     fn = F.one('MapValidVec::vpct_change')
     n = 0
     for e, t in closure_tables(fn):
-        if len(e['params']) == 1 and e['params'][0].get('k') == 'Tuple':
+        if _pair_param(e):
             n += 1
             nonnull = [(cs, leaf) for cs, leaf, ef in t if leaf != 'NULL']
             ok = len(nonnull) == 1 and parse_poly(nonnull[0][1]) == parse_poly('((a1 / a0) - 1.)') and \
@@ -112,9 +138,9 @@ def elem_fns(run, F):
     for name in ('MapValidVec::vpct_change', 'MapValidVec::vdiff'):
         fn = F.one(name)
         for e, t in closure_tables(fn):
-            if len(e['params']) != 1 or e['params'][0].get('k') != 'Binding':
+            if len(e['params']) != 1 or e['params'][0].get('k') != 'Binding' or _pair_param(e):
                 continue
-            g = dtree.guards_at(fn.hir, e, fn_env(fn))
+            g = dtree.guards_at(xhir(fn), e, fn_env(fn))
             gc = set(g[0]) if g else set()
             if '(0 < n)' in gc or '(n < 0)' in gc or not any('unsigned_abs' in c for c in gc):
                 continue
@@ -151,7 +177,7 @@ def maps(run, F):
     run.ob('MAP.table', fn, 'closure count', len(got) == 3, fn.loc(), '%d element closure(s), expected 3' % len(got))
     seen = set()
     for i, (e, t) in enumerate(got):
-        g = dtree.guards_at(fn.hir, e, env_of(fn))
+        g = dtree.guards_at(xhir(fn), e, env_of(fn))
         gc = set(g[0]) if g else set()
         which = ('lower' if 'VALID(lower)' in gc else '') + ('upper' if 'VALID(upper)' in gc else '')
         want = {'lowerupper': CLIP_BOTH, 'lower': CLIP_LO, 'upper': CLIP_HI}.get(which)
@@ -172,11 +198,13 @@ def maps(run, F):
         run.ob('MAP.delegate', fn, '-> %s(is_none, value)' % target, ok, fn.loc(), str(leaf)[:100])
     for name, m in [('tea_map::MapBasic::abs', 'Number::abs'), ('MapValidBasic::vabs', 'IsNone::vabs')]:
         fn = F.one(name)
-        got = closure_tables(fn)
-        ok = len(got) == 1 and any(callee_is(x, m) for x in walk(got[0][0])) and \
-            got[0][1] == T(([], 'a0.%s()' % m.split('::')[1], []))
-        run.ob('MAP.delegate', fn, 'element-wise %s' % m, ok, fn.loc(),
-               dtree.show(got[0][1]) if got else 'no closure')
+        # `self.map(|v| v.abs())` and `self.map(Number::abs)` are one spelling (eta), and the
+        # function mapped is the trait's own (resolved callee / path)
+        leaf = N.one_leaf(N.tbl(fn))
+        res = [x for x in walk(fn.hir) if (x.get('k') in ('MethodCall', 'Call') and callee_is(x, m)) or
+               (x.get('k') == 'Path' and strip_generics(x.get('def', '')).endswith(m))]
+        ok = leaf == 'self.map(%s)' % m and bool(res)
+        run.ob('MAP.delegate', fn, 'element-wise %s' % m, ok, fn.loc(), str(leaf))
     # bfill pipeline: self.rev().map(f).collect…().into_iter().rev()
     fn = F.one('MapValidBasic::bfill_mask')
     leaf = N.one_leaf(dtree.Table((cs, l, ()) for cs, l, ef in N.tbl(fn))) or ''
